@@ -1,4 +1,7 @@
 import VecModel.Lemmas.Sparse
+import VecModel.Lemmas.BPE
+import VecModel.Props.C06
+import VecModel.Props.C16
 /-
   C12 — each output row depends only on its own input item and the fitted model.
   Generic part: the row view of every row-wise `transform` is `items.map rowOf` with `rowOf`
@@ -102,3 +105,46 @@ example : blockwise 2 (List.map (· + 1)) [1, 2, 3, 4, 5] = [2, 3, 4, 5, 6] ∧
     blocks 2 (4 / 2 + 1) [1, 2, 3, 4] = [[1, 2], [3, 4], []] := by decide
 
 end VecModel.Sparse
+
+
+/-! ### Vectorizer-specific instances (models of C06 / C16 / C09) -/
+namespace VecModel.C12
+
+/-- NgramVectorizer.transform is a map of a per-document function of the fitted model: the rows of the
+result are `X.map rowOf`, hence concatenation / permutation / duplication of the batch act row-wise. -/
+theorem ngram_transform_is_map (m : Ngram.Fitted) (h : Ngram.WF m) (X : List (List Int)) :
+    ∃ M, Ngram.transform m X = .ok M ∧
+      M.rows = X.map fun doc => Ngram.countDoc m (Counts.reindex m.tokDict doc) :=
+  let ⟨M, h1, _, _, h4⟩ := C06.ngram_transform_shape m h X
+  ⟨M, h1, h4⟩
+
+theorem ngram_transform_append (m : Ngram.Fitted) (h : Ngram.WF m) (A B : List (List Int)) :
+    ∃ MA MB MAB, Ngram.transform m A = .ok MA ∧ Ngram.transform m B = .ok MB ∧
+      Ngram.transform m (A ++ B) = .ok MAB ∧ MAB.rows = MA.rows ++ MB.rows := by
+  obtain ⟨MA, a1, a2⟩ := ngram_transform_is_map m h A
+  obtain ⟨MB, b1, b2⟩ := ngram_transform_is_map m h B
+  obtain ⟨MAB, c1, c2⟩ := ngram_transform_is_map m h (A ++ B)
+  exact ⟨MA, MB, MAB, a1, b1, c1, by rw [c2, a2, b2, List.map_append]⟩
+
+/-- LZCompressionVectorizer.transform: row `i` is a function of string `i`, the fitted columns, the base
+dictionary and the cap only (the per-string dictionary reset) -/
+theorem lz_transform_is_map {κ : Type} [DecidableEq κ] (h : List Nat → κ) (cap : Nat)
+    (base cols : LZ.Dict κ) (Y : List (List Nat)) (hok : LZ.ColsOK cols) :
+    ∃ rows, LZ.transform h cap base cols Y = .ok rows ∧ rows.length = Y.length ∧
+      ∀ (i : Nat) (hi : i < Y.length), rows[i]? = some (LZ.emit cols (LZ.encode h cap base Y[i])) := by
+  obtain ⟨rows, h1, h2, h3⟩ := LZ.transform_unseen h cap base cols Y hok
+  refine ⟨rows, h1, h2, ?_⟩
+  intro i hi
+  obtain ⟨row, r1, r2, _⟩ := h3 i hi
+  rw [r1, r2]
+
+/-- BytePairEncodingVectorizer.transform ('sequences'): one encoding per string, each a function of its own
+string and the learned merges — whatever order a parallel loop fills them in (`prange_order_irrelevant`). -/
+theorem bpe_transform_is_map (cl : List BPE.Pair) (mcc : Int) (A B : List (List Int)) :
+    (A ++ B).map (BPE.encode cl mcc) = A.map (BPE.encode cl mcc) ++ B.map (BPE.encode cl mcc) ∧
+    ∀ (i : Nat) (hi : i < A.length), ((A ++ B).map (BPE.encode cl mcc))[i]? = some (BPE.encode cl mcc A[i]) := by
+  refine ⟨List.map_append, ?_⟩
+  intro i hi
+  simp [List.getElem?_append_left, hi]
+
+end VecModel.C12
